@@ -18,6 +18,7 @@ HERE = os.path.dirname(os.path.abspath(__file__))
 VERIF = os.path.dirname(HERE)
 WIDTHS = [10, 11, 40, 80, 130, 99999]
 PROPS = "StepModel.Props.C07"
+PROPS_LEX = "StepModel.Props.C07Lex"
 
 
 class Model:
@@ -55,6 +56,55 @@ class Model:
             self.p.stdin.close(); self.p.wait(timeout=5)
         except Exception:
             self.p.kill()
+
+
+SCAN = {"runs": 0, "tokens": 0, "skipped": 0, "problems": [], "reserved": None}
+
+
+def reserved_words():
+    """words the scanner does not read as identifiers (lexact.c keyword table, built-in functions/procedures excepted)"""
+    if SCAN["reserved"] is None:
+        lx = open(os.path.join(B.REPO, "src/express/lexact.c")).read()
+        tab = re.findall(r'\{\s*"([A-Z_0-9]+)"\s*,\s*(TOK_\w+)\s*\}', lx)
+        SCAN["reserved"] = {w for w, t in tab if t not in ("TOK_BUILTIN_FUNCTION", "TOK_BUILTIN_PROCEDURE")}
+    return SCAN["reserved"]
+
+
+def scanner_correspondence(model, text, label):
+    """The Lean scanner model (`lex`, StepModel/ExpLex.lean — the scanner of the character-level theorems) against this check's
+    lexer on what exppp wrote: every maximal run of expression tokens of the output is cut out of the text (with its white
+    space and line breaks) and read by the model; the tokens must be the same.  (This check's lexer is tied to the real scanner
+    by the oracle: check-express reads the same text and the declarations compare equal.)"""
+    if len(SCAN["problems"]) >= 3:
+        return
+    spans = []
+    try:
+        toks = X.lex(text, spans)
+    except X.LexError:
+        return                      # reported by the oracle as `unreadable`
+    res = reserved_words()
+    runs, cur = [], []
+    for t, sp in zip(toks, spans):
+        w = X.word(t)
+        if w is None or (t[0] == "id" and t[1].upper() in res):
+            if cur: runs.append(cur)
+            cur = []
+            continue
+        if t[0] == "real":
+            w = "r" + X.hx(t[2])        # the model's real token carries the spelling
+        cur.append((w, sp))
+    if cur: runs.append(cur)
+    for run in runs:
+        piece = text[run[0][1][0]:run[-1][1][1]]
+        if "--" in piece or "(*" in piece or any(ord(ch) > 126 for ch in piece):
+            SCAN["skipped"] += 1
+            continue
+        want = "L " + " ".join(w for w, _ in run)
+        got = model.ask("lex " + X.hx(piece))
+        SCAN["runs"] += 1; SCAN["tokens"] += len(run)
+        if got.rstrip() != want.rstrip():
+            SCAN["problems"].append((label, f"scanner model reads {piece[:120]!r} as `{got[:200]}`, this check's lexer as `{want[:200]}`", text))
+            return
 
 
 class Tools:
@@ -119,6 +169,7 @@ def oracle(tools, model, src, w, t, c):
     except X.LexError as ex:
         probs.append(("unreadable", f"the pretty-printed text cannot be split into tokens ({ex}); " + locate(out, ex)))
     if toks_out is not None:
+        scanner_correspondence(model, body_of(out), f"-l {w} t={int(t)} c={int(c)}")
         try:
             do = X.Decls(fold(toks_out))
             e = equivalent(model, ds, do)
@@ -255,6 +306,7 @@ def oracle_ext(tools, model, src, w, t, c):
     except (X.LexError, X.DeclError) as ex:
         probs.append(("unreadable", f"the pretty-printed text cannot be read as declarations ({ex}); " + (locate(out, ex) if isinstance(ex, X.LexError) else "")))
         return probs, out
+    scanner_correspondence(model, body_of(out), f"-l {w} t={int(t)} c={int(c)}")
     # normalised declaration ASTs: names, VAR, OPTIONAL, UNIQUE, FIXED, precision, bounds, ABSTRACT, labels, statement structure equal;
     # id lists expanded; declarations keyed by (kind, name); expressions through the Lean driver
     diff = D.compare(ast_src, ast_out, lambda a, b, where: same_expr(model, a, b, where))
@@ -603,6 +655,8 @@ def run(ctx):
     ]
     ctx.corr_problems = []
     proof_ok = ctx.lean(PROPS, exes=["m_c07"], extractors=["expprec"])
+    proof_ok = ctx.lean(PROPS_LEX) and proof_ok          # character level: layout engine x scanner model
+    SCAN.update({"runs": 0, "tokens": 0, "skipped": 0, "problems": []})
     exe = ensure_exe(ctx)
     b = ctx.build("plain")
     if exe is None:
@@ -730,6 +784,12 @@ def run(ctx):
                            "from {10,11,40,80,130,99999} with/without -t/-c; distinct = (schema text, -l, -t, -c)")
     finally:
         model.close()
+    ctx.cov["scanner_model_correspondence"] = {"runs of expression tokens cut from exppp's output": SCAN["runs"], "tokens": SCAN["tokens"],
+                                               "runs skipped (remark or non-ASCII inside)": SCAN["skipped"]}
+    ctx.hist("correspondence", "scanner model: token runs of exppp output", SCAN["runs"])
+    if SCAN["problems"]:
+        lab, det, src = SCAN["problems"][0]
+        ctx.broken.append(("correspondence scanner model (Express.Lex) vs lexer on exppp output", f"{lab}: {det}; output:\n{src[:1500]}"))
     if ctx.corr_problems and not ctx.violations:
         lab, det, src = ctx.corr_problems[0]
         ctx.broken.append(("correspondence exppp vs Express.Print model", f"{lab}: {det}; the oracle finds the property intact on this input; schema:\n{src[:1500]}"))
